@@ -517,10 +517,10 @@ fn respell(n: &N, sel: u8) -> N {
 
 const BLOCK: u64 = 5000;
 fn lookup_cases(tier: Tier) -> u64 {
-    tier.pick(120_000, 2_000_000)
+    tier.pick(240_000, 2_000_000)
 }
 fn eq_cases(tier: Tier) -> u64 {
-    tier.pick(80_000, 1_000_000)
+    tier.pick(160_000, 1_000_000)
 }
 
 impl Property for C20P {
